@@ -32,7 +32,7 @@ pub struct Case {
     pub crowded: Option<u32>,
     /// hand-shaped documents: 0 = several files sharing one namespace with duplicate structs,
     /// built with Builder::dedup; 1 = groups of struct cycles whose members differ in what can
-    /// be derived for them
+    /// be derived for them; 2 = ignore_unused + touch over several included files
     #[serde(default)]
     pub special: Option<u8>,
 }
@@ -56,6 +56,36 @@ fn shared_namespace_files() -> (Vec<(String, String)>, Vec<String>) {
     main.push_str("service S { a.Base1 get(1: b.Base2 r) }\n");
     files.insert(0, ("main.thrift".to_string(), main));
     (files, names)
+}
+
+/// Several included files in one namespace, each with enums and structs; built with
+/// ignore_unused (the default of the builder) and `touch` entries for every file, so that the
+/// set of reachable items is assembled from several roots.
+fn touch_files() -> (Vec<(String, String)>, Vec<(String, Vec<String>)>) {
+    let mut files = vec![];
+    let mut touches = vec![];
+    let mut main = String::from("namespace rs touch.svc\n");
+    for t in 0..4 {
+        main.push_str(&format!("include \"t{}.thrift\"\n", t));
+    }
+    main.push_str("struct Req { 1: t0.S0x1 a, 2: t3.S3x6 b }\nservice Svc { Req call(1: Req r) }\n");
+    files.push(("svc.thrift".to_string(), main));
+    for t in 0..4 {
+        let mut text = String::from("namespace rs touch.shared\n");
+        for i in 0..8 {
+            text.push_str(&format!("enum E{t}x{i} {{ "));
+            for v in 0..(5 + (i + t) % 5) {
+                text.push_str(&format!("V{t}x{i}x{v} = {v}, "));
+            }
+            text.push_str("}\n");
+        }
+        for i in 0..8 {
+            text.push_str(&format!("struct S{t}x{i} {{ 1: E{t}x{i} e, 2: optional S{t}x{} next, 3: list<i64> xs }}\n", (i + 1) % 8));
+        }
+        files.push((format!("t{}.thrift", t), text));
+        touches.push((format!("t{}.thrift", t), vec![format!("S{t}x2"), format!("S{t}x5"), format!("E{t}x7")]));
+    }
+    (files, touches)
 }
 
 /// Groups of struct cycles: in each group one cycle has a member that cannot derive Hash / Ord
@@ -109,6 +139,7 @@ fn files_of(c: &Case) -> (bool, Vec<(String, String)>, usize) {
     }
     match c.special {
         Some(0) => return (false, shared_namespace_files().0, 1),
+        Some(2) => return (false, touch_files().0, 1),
         Some(_) => return (false, vec![("cycles.thrift".to_string(), cycle_groups_text())], 1),
         None => {}
     }
@@ -191,6 +222,13 @@ fn build_once(c: &Case, mode: Mode, slot: &str, threads: usize) -> Result<BTreeM
     if c.special == Some(0) {
         args.push("--dedup".into());
         args.push(shared_namespace_files().1.join(","));
+    }
+    if c.special == Some(2) {
+        args.push("--ignore-unused".into());
+        for (f, names) in touch_files().1 {
+            args.push("--touch".into());
+            args.push(format!("{}:{}", idl.join(f).to_string_lossy(), names.join(",")));
+        }
     }
     let b = run_vbuild(&args, Some(threads), 120);
     if !b.ok {
@@ -286,7 +324,7 @@ pub fn run(ctx: &Ctx) -> i32 {
     for (n, m) in crowds {
         cases.push(Case { raw: None, kitchen: None, mode: *m, proto: None, pkitchen: None, crowded: Some(*n), special: None });
     }
-    for (sp, m) in [(0u8, Mode::Single), (0, Mode::Split), (1, Mode::Single), (1, Mode::Split)] {
+    for (sp, m) in [(0u8, Mode::Single), (0, Mode::Split), (1, Mode::Single), (1, Mode::Split), (2, Mode::Single), (2, Mode::Split)] {
         cases.push(Case { raw: None, kitchen: None, mode: m, proto: None, pkitchen: None, crowded: None, special: Some(sp) });
     }
     let runs: Vec<usize> = if ctx.tier == vcore::evidence::Tier::Quick { vec![1, 16, 2, 8, 3, 4, 16, 1] } else { (0..48).map(|i| [1, 16, 2, 8, 3, 4, 5, 7][i % 8]).collect() };
